@@ -50,7 +50,12 @@ TlKinds == LET S == DOMAIN tl IN [x \in {<<y[1], IF y[2][1] = "meta" THEN <<"met
               IN Sum(M)]
 ObservedTimeline == (j = Len(Evs) /\ Recs[l].kind = "wtrace") =>
    /\ Recs[l].written
-   /\ ObsMerge(0, [x \in {} |-> 0]) = TlKinds
+   \* notes exactly; meta events: those the calls denote, plus whatever else the writer puts at tick 0 on its own account
+   \* (track name, instrument, program ... -- no property counts those)
+   /\ LET obs == ObsMerge(0, [x \in {} |-> 0])  want == TlKinds
+          cnt(b, x) == IF x \in DOMAIN b THEN b[x] ELSE 0 IN
+      /\ \A x \in DOMAIN want \cup DOMAIN obs :
+            IF x[2] = <<"meta">> /\ x[1] = 0 THEN cnt(obs, x) >= cnt(want, x) ELSE cnt(obs, x) = cnt(want, x)
    /\ \A t \in Tracks : LET f == Recs[l].final[t + 1] IN f # <<>> /\ f[Len(f)][2] = "eot" /\ f[Len(f)][1] = now
 TNext == Step \/ Done
 TSpec == TInit /\ [][TNext]_tvars
